@@ -370,3 +370,18 @@ Record lledger (st : lstate) : Prop := mkLL {
   ll_count : forall x, cnt x (pool_ids (snd st)) = bn (lv (fst st) x);
   ll_fresh : forall x, nx (fst st) <= x -> lv (fst st) x = false;
   ll_wf : Forall table_wf (snd st) }.
+
+(* ---------- observers for the correspondence run (ocaml/htabledger.ml) ---------- *)
+Definition obs_blocks (p : list ltable) : nat := length (filter (fun t => negb (no_stor t)) p).
+Definition obs_keys (p : list ltable) : nat := length (flat_map (fun t => compact (lslots t)) p).
+Definition has_vtok (s : slot) : bool := match s with Some x => match vtok x with Some _ => true | None => false end | None => false end.
+Definition obs_vals (p : list ltable) : nat := length (flat_map (fun t => filter has_vtok (lslots t)) p).
+(* one step: Some (state, (owned ids, blocks, keys, values)); None = Error *)
+Definition lstep_obs (st : lstate) (o : lop) : option (lstate * (nat * nat * nat * nat)) :=
+  match lstep st o with
+  | Ok st' => Some (st', (length (pool_ids (snd st')), obs_blocks (snd st'), obs_keys (snd st'), obs_vals (snd st')))
+  | Error _ => None
+  end.
+(* destroy every table: the number of ids still live (None = Error) *)
+Definition lfinal_live (st : lstate) : option nat :=
+  match l_destroy_all st with Ok st' => Some (length (llive_ids (fst st'))) | Error _ => None end.
